@@ -254,9 +254,10 @@ func (i *Instance) Restart(newCasketfile Input) (*Instance, error) {
 		return i, err
 	}
 	for _, shutdownFunc := range i.OnShutdown {
-		err = shutdownFunc()
-		if err != nil {
-			return i, err
+		// the new instance is already serving, so an error here does not
+		// make the restart a failed one; run every callback and log errors
+		if shutdownErr := shutdownFunc(); shutdownErr != nil {
+			log.Printf("[ERROR] Shutdown callback of replaced instance: %v", shutdownErr)
 		}
 	}
 
